@@ -27,7 +27,7 @@ MUTABLE_CTORS = {'Py_Vec', 'Vec', 'Py_Angle', 'Angle', 'Py_Matrix', 'Matrix'}
 FROZEN_CTORS = {'Py_FrozenVec', 'FrozenVec', 'Py_FrozenAngle', 'FrozenAngle', 'Py_FrozenMatrix', 'FrozenMatrix'}
 FRESH_CLASSMETHODS = {'from_angle', 'from_basis', 'from_pitch', 'from_yaw', 'from_roll', 'axis_angle', 'from_angstr',
                       '_from_raw', 'from_str', 'with_axes'}
-FRESH_METHODS = {'to_angle', 'thaw', 'freeze', 'transpose', 'inverse', 'norm', 'cross', 'forward', 'left', 'up', '_new_copy'}
+FRESH_METHODS = {'to_angle', 'thaw', 'freeze', 'transpose', 'inverse', 'norm', 'cross', 'forward', 'left', 'up', '_new_copy', '_rotate_angle'}
 # methods that write their receiver / their first argument (the call is then a mutation event in the caller)
 MUT_RECV = {'_mat_mul', '__iadd__', '__isub__', '__imul__', '__itruediv__', '__ifloordiv__', '__imod__', '__imatmul__',
             'min', 'max', 'localise', 'rotate', 'rotate_by_str', '__setitem__'}
@@ -645,8 +645,8 @@ def _origin_of_expr(e: ast.AST, origin_of_name) -> str:
     return 'Unknown'
 
 
-def mutation_events(f: ast.FunctionDef, is_method: bool) -> list[tuple[str, str, int]]:
-    """(origin, what, line) for every write to an object inside f."""
+def _origins(f: ast.FunctionDef, is_method: bool):
+    """(receiver name or None, parameter names, bindings, origin_of_name) for the body of f."""
     params = [a.arg for a in f.args.posonlyargs + f.args.args + f.args.kwonlyargs]
     if f.args.vararg:
         params.append(f.args.vararg.arg)
@@ -684,6 +684,12 @@ def mutation_events(f: ast.FunctionDef, is_method: bool) -> list[tuple[str, str,
         if n in params:
             return 'Param'
         return 'Unknown'
+    return recv, params, binds, origin_of_name
+
+
+def mutation_events(f: ast.FunctionDef, is_method: bool) -> list[tuple[str, str, int]]:
+    """(origin, what, line) for every write to an object inside f."""
+    recv, params, binds, origin_of_name = _origins(f, is_method)
 
     ev: list[tuple[str, str, int]] = []
     for node in ast.walk(f):
@@ -737,6 +743,132 @@ def method_table(tree: ast.Module) -> list[tuple[str, str]]:
     return [(cls, f.name) for cls, fns in _class_functions(tree).items() for f in fns]
 
 
+# ---------------------------------------------------------------------------------------------- result kinds
+CONCRETE = {'Vec': 'VecBase', 'FrozenVec': 'VecBase', 'Angle': 'AngleBase', 'FrozenAngle': 'AngleBase',
+            'Matrix': 'MatrixBase', 'FrozenMatrix': 'MatrixBase'}
+COPYLIKE = ('copy', '__copy__', '__deepcopy__', '__reduce__', 'freeze', 'thaw')
+
+
+def _is_stub(f: ast.FunctionDef) -> bool:
+    body = _nodoc(f.body)
+    return (len(body) == 1 and isinstance(body[0], ast.Expr) and isinstance(body[0].value, ast.Constant) and body[0].value.value is Ellipsis) \
+        or any(isinstance(d, ast.Name) and d.id == 'overload' for d in f.decorator_list)
+
+
+def _own_returns(f: ast.FunctionDef) -> list[ast.Return]:
+    return [n for n in _own_nodes(f) if isinstance(n, ast.Return)]
+
+
+def _guarded_param_return(f: ast.FunctionDef, ret: ast.Return, cls: str) -> bool:
+    """`if isinstance(p, cls|<Class>): return p` as a direct statement of the function body, p a parameter."""
+    for st in f.body:
+        if isinstance(st, ast.If) and len(st.body) == 1 and st.body[0] is ret and not st.orelse and isinstance(ret.value, ast.Name):
+            t = st.test
+            if isinstance(t, ast.Call) and isinstance(t.func, ast.Name) and t.func.id == 'isinstance' and len(t.args) == 2 \
+                    and isinstance(t.args[0], ast.Name) and t.args[0].id == ret.value.id \
+                    and isinstance(t.args[1], ast.Name) and t.args[1].id in ('cls', cls, 'Py_' + cls):
+                return True
+    return False
+
+
+def _function_kind(f: ast.FunctionDef, cls: str | None, module_kinds: dict[str, str]) -> str:
+    """Kind of the result of one function, from its own return statements."""
+    recv, params, binds, origin_of_name = _origins(f, cls is not None)
+    rets = _own_returns(f)
+    if any(isinstance(n, (ast.Yield, ast.YieldFrom)) for n in _own_nodes(f)):
+        return 'ROther'                 # generator / context manager
+    if f.name == '__init__':
+        # the object is created by type.__call__; __init__ itself returns nothing
+        return 'RFresh' if all(r.value is None for r in rets) else 'RUnknown'
+    kinds: set[str] = set()
+    for r in rets:
+        v = r.value
+        if v is None or (isinstance(v, ast.Constant)) or (isinstance(v, ast.Name) and v.id == 'NotImplemented'):
+            kinds.add('ROther')
+            continue
+        if f.name == '__reduce__':
+            # (maker, (slot, slot, ...)): a new object iff the maker builds one and only slots of the receiver are passed
+            ok = (isinstance(v, ast.Tuple) and len(v.elts) == 2 and isinstance(v.elts[0], ast.Name)
+                  and module_kinds.get(v.elts[0].id) == 'RFresh' and isinstance(v.elts[1], ast.Tuple)
+                  and all(isinstance(e, ast.Attribute) and isinstance(e.value, ast.Name) and e.value.id == recv
+                          and (e.attr.startswith('_') or e.attr in ('x', 'y', 'z', 'pitch', 'yaw', 'roll'))
+                          for e in v.elts[1].elts))
+            kinds.add('RFresh' if ok else 'RUnknown')
+            continue
+        if isinstance(v, (ast.Name, ast.Call)):
+            o = _origin_of_expr(v, origin_of_name)
+            if isinstance(v, ast.Call) and isinstance(v.func, ast.Attribute) and v.func.attr == '_to_angle' and len(v.args) == 1:
+                o = _origin_of_expr(v.args[0], origin_of_name)          # _to_angle returns the angle it was given
+            if isinstance(v, ast.Call) and isinstance(v.func, ast.Attribute) and isinstance(v.func.value, ast.Name) and v.func.value.id == 'math':
+                kinds.add('ROther')
+                continue
+            if o == 'Fresh':
+                kinds.add('RFresh')
+            elif o == 'Self':
+                kinds.add('RSelf')
+            elif o == 'Param':
+                kinds.add('RArgFrozen' if (cls is not None and _guarded_param_return(f, r, cls)) else 'RArg')
+            elif isinstance(v, ast.Call) and isinstance(v.func, ast.Name) and v.func.id in ('float', 'int', 'str', 'bool', 'hash', 'len', 'round', 'iter', 'tuple', 'Vec_tuple', 'abs', 'min', 'max', 'format_float', 'repr'):
+                kinds.add('ROther')
+            else:
+                kinds.add('RUnknown')
+            continue
+        if isinstance(v, (ast.Tuple, ast.JoinedStr, ast.Compare, ast.BoolOp, ast.BinOp, ast.UnaryOp, ast.Attribute, ast.Subscript, ast.IfExp,
+                          ast.GeneratorExp, ast.ListComp, ast.List, ast.Dict)):
+            kinds.add('ROther')          # numbers, strings, tuples, slot reads: not an object of the six classes
+            continue
+        kinds.add('RUnknown')
+    if not rets:
+        return 'ROther'
+    kinds.discard('ROther') if len(kinds) > 1 else None
+    if kinds == {'RFresh', 'RArgFrozen'}:
+        return 'RArgFrozen'
+    if len(kinds) == 1:
+        return kinds.pop()
+    return 'RUnknown'
+
+
+def result_kinds(tree: ast.Module) -> tuple[list[tuple[str, str, str]], dict]:
+    """(concrete class, public method, kind) for every method of the six classes as resolved through inheritance
+    (subclass first, then its base; class-level aliases `__copy__ = copy` followed; a class without __copy__/__deepcopy__
+    is copied by the copy module through __reduce__)."""
+    module_kinds: dict[str, str] = {}
+    for f in tree.body:
+        if isinstance(f, ast.FunctionDef) and f.name.startswith('_mk'):
+            module_kinds[f.name] = _function_kind(f, None, {})
+    fns = _class_functions(tree)
+    aliases: dict[str, dict[str, str]] = {}
+    for c in tree.body:
+        if isinstance(c, ast.ClassDef) and c.name in CLASSES:
+            for n in c.body:
+                if isinstance(n, ast.Assign) and len(n.targets) == 1 and isinstance(n.targets[0], ast.Name) and isinstance(n.value, ast.Name):
+                    aliases.setdefault(c.name, {})[n.targets[0].id] = n.value.id
+    out: list[tuple[str, str, str]] = []
+    info: dict = {'module_makers': module_kinds}
+    for cls, base in CONCRETE.items():
+        table: dict[str, str] = {}
+        for owner in (base, cls):                       # subclass definitions override the base ones
+            defs: dict[str, ast.FunctionDef] = {}
+            for f in fns[owner]:
+                if not _is_stub(f):
+                    defs[f.name] = f                    # last real definition wins (property setter after getter)
+            for name, f in defs.items():
+                table[name] = _function_kind(f, cls, module_kinds)
+            for name, target in aliases.get(owner, {}).items():
+                if target in defs:
+                    table[name] = _function_kind(defs[target], cls, module_kinds)
+                elif target == 'None':
+                    table.pop(name, None)
+        for m in ('__copy__', '__deepcopy__'):
+            if m not in table and '__reduce__' in table:
+                table[m] = table['__reduce__']          # copy.copy / copy.deepcopy fall back to __reduce_ex__
+        for name, k in sorted(table.items()):
+            public = not name.startswith('_') or (name.startswith('__') and name.endswith('__'))
+            if public:
+                out.append((cls, name, k))
+    return out, info
+
+
 # ---------------------------------------------------------------------------------------------- emit
 def _s(x: str) -> str:
     return '"' + x.replace('"', "'") + '"'
@@ -753,6 +885,8 @@ def translate() -> tuple[str, dict]:
     strs = str_templates(tree)
     muts = mutation_census(tree)
     meths = method_table(tree)
+    results, rinfo = result_kinds(tree)
+    info.update(rinfo)
     # __str__: three numbers separated by single spaces
     def plain3(p, sep):
         kinds = [k for k, _ in p]
@@ -763,7 +897,7 @@ def translate() -> tuple[str, dict]:
     lines = [
         '(* GENERATED by translate/c05_sites.py from src/srctools/math.py. Do not edit. *)',
         'From Coq Require Import ZArith NArith List String.',
-        'From SV Require Import Num.Dec6 Num.AngleSites Num.VecText SM.FrozenOps.',
+        'From SV Require Import Num.Dec6 Num.AngleSites Num.VecText SM.FrozenOps SM.FrozenCopy.',
         'Import ListNotations.', 'Open Scope string_scope.',
         '(* every store to an _pitch/_yaw/_roll slot: (file:Class.function:slot, classification of the stored value) *)',
         'Definition angle_sites : list (string * rhs) := [',
@@ -791,10 +925,14 @@ def translate() -> tuple[str, dict]:
         'Definition mut_events : list (string * string * origin * string) := [',
         ';\n'.join(f'  ({_s(c)}, {_s(m)}, {o}, {_s(w)})' for c, m, o, w, _ in muts),
         '].',
+        '(* kind of the result of every public method of the six concrete classes, resolved through inheritance *)',
+        'Definition result_kinds : list (string * string * rkind) := [',
+        ';\n'.join(f'  ({_s(c)}, {_s(m)}, {k})' for c, m, k in results),
+        '].',
         '',
     ]
     side = {'angle_sites': [list(s) for s in sites], 'angle_creations': [list(c) for c in creations], 'format_float': cfg, 'parse_vec_str': pcfg, 'str_templates': strs,
-            'mut_events': [list(m) for m in muts], 'n_methods': len(meths), **info,
+            'mut_events': [list(m) for m in muts], 'result_kinds': [list(r) for r in results], 'n_methods': len(meths), **info,
             'digests': {'parse_vec_str': _digest(tree, 'parse_vec_str'), 'format_float': cfg['digest']}}
     return '\n'.join(lines), side
 
